@@ -164,7 +164,7 @@ class CallMixin:
         bt = T.Bag(st.e)
         b = fresh("bagofset", bt.sort())
         x = fresh("bx", st.e.sort())
-        self._assume(p, z3.ForAll([x], b[x] == z3.If(s[x], 1, 0), patterns=[b[x]]))
+        self._assume(p, z3.ForAll([x], b[x] == z3.If(s[x], 1, 0), patterns=[b[x], s[x]]))
         self._assume(p, bt.blen()(b) == st.card()(s))
         return T.scalar(bt, b)
 
@@ -348,6 +348,16 @@ class CallMixin:
             if name == "values":
                 return self.map_values_bag(recv, p)
         if rt == T.META:
+            if name == "update" and len(args) == 1 and args[0].ty == T.META:
+                # m.update(literal): replay the literal's msets on top of m
+                def rebuild(lit):
+                    if lit.eq(TH.EMPTY_META):
+                        return recv.t
+                    if z3.is_app(lit) and lit.decl().name() == "mset":
+                        return TH.mset(rebuild(lit.arg(0)), lit.arg(1), lit.arg(2))
+                    raise Unsupported("dict.update with a non-literal argument")
+                self.store(f.value, T.scalar(T.META, rebuild(args[0].t)), p)
+                return T.sv_none()
             if name == "clear":
                 self.store(f.value, T.scalar(T.META, TH.EMPTY_META), p)
                 return T.sv_none()
@@ -397,51 +407,68 @@ class CallMixin:
             raise Unsupported(f"comprehension over {src.ty}")
         return self.bag_image(src, target, e.elt, ifs, p, e.lineno)
 
-    def _bound_eval(self, target, src_elem_ty, exprs, p, lineno):
-        """Evaluate expressions with the comprehension variable bound to a fresh constant.
-        Implicit exceptions inside are collected as a universally quantified safety condition."""
+    def _bound_eval(self, target, src_elem_ty, exprs, p, lineno, member):
+        """Evaluate expressions with the comprehension variable bound to a fresh constant x (member(x) assumed).
+        Returns x, values, raise-conditions, local facts. Values created for one element (results of contracted
+        calls, auxiliary sets) are Skolemised into functions of x so that the facts can be closed over x."""
         if not isinstance(target, ast.Name):
             raise Unsupported("comprehension target")
         x = fresh("c_" + target.id, src_elem_ty.sort())
         saved = p.env.get(target.id)
-        p.env[target.id] = T.scalar(src_elem_ty, x)
-        # sub-evaluation on a scratch path: collect hypotheses (definitions) and raise-conditions
         scratch = p.fork()
-        scratch.hyps = []
+        scratch.env[target.id] = T.scalar(src_elem_ty, x)
+        n0 = len(scratch.hyps)
+        scratch.assume(member(x))
         old_pending, self.pending = self.pending, []
-        old_prune, self.prune_ms = self.prune_ms, 0
         old_guards, self.guards = self.guards, []
+        old_rec, T._record = T._record, []
         conds = []
+        orig = self._raise_if
+
+        def collect(pp, cond, exc, note, _c=conds):
+            g = self._guard()
+            _c.append((cond if g is None else z3.And(g, cond), exc))
+        self._raise_if = collect
         try:
-            vals = []
-            for ex in exprs:
-                orig = self._raise_if
-                def collect(pp, cond, exc, note, _c=conds):
-                    g = self._guard()
-                    _c.append((cond if g is None else z3.And(g, cond), exc))
-                self._raise_if = collect
-                try:
-                    vals.append(self.ev(ex, scratch))
-                finally:
-                    self._raise_if = orig
+            vals = [self.ev(ex, scratch) for ex in exprs]
+            if self.pending:
+                raise Unsupported(f"a contracted call inside the comprehension at line {lineno} may raise")
+            created = T._record
         finally:
-            self.pending, self.prune_ms, self.guards = old_pending, old_prune, old_guards
-            if saved is None:
-                p.env.pop(target.id, None)
-            else:
-                p.env[target.id] = saved
-        return x, vals, conds, scratch.hyps
+            self._raise_if = orig
+            self.pending, self.guards, T._record = old_pending, old_guards, old_rec
+        if old_rec is not None:
+            old_rec.extend(created)
+        defs = scratch.hyps[n0 + 1:]
+        # Skolemise element-local constants
+        subs = []
+        for c in created:
+            if c.eq(x):
+                continue
+            fn = z3.Function(f"sk_{c.decl().name()}", src_elem_ty.sort(), c.sort())
+            subs.append((c, fn(x)))
+        if subs:
+            defs = [z3.substitute(d, *subs) for d in defs]
+            conds = [(z3.substitute(c, *subs), e) for c, e in conds]
+            def subv(v):
+                if v.ty.scalar and v.ty.sort() is not None:
+                    return T.scalar(v.ty, z3.substitute(v.t, *subs))
+                if isinstance(v.ty, T.Opt):
+                    return T.sv_opt(v.ty.t, z3.substitute(v.is_none, *subs), subv(v.val))
+                return v
+            vals = [subv(v) for v in vals]
+        return x, vals, conds, defs
 
     def bag_image(self, src, target, elt, ifs, p, lineno):
         et = src.ty.e
-        x, vals, conds, defs = self._bound_eval(target, et, list(ifs) + [elt], p, lineno)
+        x, vals, conds, defs = self._bound_eval(target, et, list(ifs) + [elt], p, lineno, lambda xx: src.t[xx] >= 1)
         cond_terms = [self.truth(v, p) for v in vals[:-1]]
         fx = vals[-1]
         if not fx.ty.scalar:
             raise Unsupported("comprehension element of composite type")
         c = z3.And(cond_terms) if cond_terms else z3.BoolVal(True)
         inb = src.t[x] >= 1
-        self._close_defs(p, x, defs)
+        self._close_defs(p, x, defs, inb)
         # implicit exceptions: fork  (exists x in src raising)  vs  (forall x in src: safe)
         if conds:
             unsafe = z3.Or([cc for cc, _ in conds])
@@ -475,11 +502,11 @@ class CallMixin:
             self._assume(p, z3.And(rt.blen()(r) <= src.ty.blen()(src.t), rt.blen()(r) >= 0))
         return T.scalar(rt, r)
 
-    def _close_defs(self, p, x, defs):
-        """Auxiliary facts produced while evaluating a comprehension element hold for every value of the variable."""
+    def _close_defs(self, p, x, defs, guard):
+        """Facts produced while evaluating a comprehension element hold for every member of the source."""
         for d in defs:
             if any(v.eq(x) for v in z3.z3util.get_vars(d)):
-                self._assume(p, z3.ForAll([x], d))
+                self._assume(p, z3.ForAll([x], z3.Implies(guard, d)))
             else:
                 self._assume(p, d)
 
@@ -495,12 +522,12 @@ class CallMixin:
         if not (isinstance(e.key, ast.Name) and isinstance(target, ast.Name) and e.key.id == target.id):
             raise Unsupported("dict comprehension whose key is not the loop variable")
         et = src.ty.e
-        x, vals, conds, defs = self._bound_eval(target, et, list(ifs) + [e.value], p, e.lineno)
-        self._close_defs(p, x, defs)
+        x, vals, conds, defs = self._bound_eval(target, et, list(ifs) + [e.value], p, e.lineno, lambda xx: src.t[xx] >= 1)
         cond_terms = [self.truth(v, p) for v in vals[:-1]]
         fx = vals[-1]
         c = z3.And(cond_terms) if cond_terms else z3.BoolVal(True)
         inb = src.t[x] >= 1
+        self._close_defs(p, x, defs, inb)
         if conds:
             unsafe = z3.Or([cc for cc, _ in conds])
             self._raise_if(p, z3.Exists([x], z3.And(inb, c, unsafe)), conds[0][1], f"comprehension at line {e.lineno}")
